@@ -55,6 +55,9 @@ type World struct {
 	// the channel is closed (the controller calls Create outside its lock)
 	Gate    map[string]chan struct{}
 	Entered chan string
+	// OnHTTP, when set, is called (once, then cleared) when a replica's REST endpoint receives a request:
+	// the harness uses it to issue another controller request while the controller is inside that call
+	OnHTTP func(addr string)
 }
 
 func NewWorld() *World {
@@ -421,6 +424,13 @@ func Serve(host string) error {
 		if w == nil {
 			http.Error(rw, "no world", 500)
 			return
+		}
+		w.mu.Lock()
+		hook := w.OnHTTP
+		w.OnHTTP = nil
+		w.mu.Unlock()
+		if hook != nil {
+			hook(addr)
 		}
 		s := w.log(addr, "http:"+rq.Method+":"+rq.URL.Query().Get("action"))
 		if s == "err" {
